@@ -11,4 +11,6 @@ PROPERTY = "C04"
 LABELS = ["input_unchanged", "kind_preserved"]
 
 def templates(tier, seed):
-    return [Template(tid, tmpl.pick(fn, LABELS), args) for tid, fn, args in tmpl.standard_cases(tier)]
+    import tmpl_pl
+
+    return [Template(tid, tmpl.pick(fn, LABELS), args) for tid, fn, args in tmpl.standard_cases(tier) + tmpl_pl.standard_cases(tier)]
